@@ -31,7 +31,7 @@ RULE = (
     "singletons as 'k' or ('k',), zipped lists of equal length, optional constants (new keys and keys overlapping "
     "items), derivers (tag string of selected keys; new names and names overwriting items/constants), exclude "
     "(key == value)); products of 2-3 such sweeps over disjoint key namespaces (variadic and chained), sums of "
-    "2-3 arbitrary sweeps (+, MultiSweep, combine, nested), filtered_sweep on sweeps without constants/exclude, "
+    "2-3 arbitrary sweeps (+, MultiSweep, combine, nested, MultiSweep + MultiSweep), filtered_sweep on sweeps without constants/exclude, "
     "count_sweep on 2-4 function DAG programs, plus an exhaustive enumeration of every dims partition/ordering of "
     "<= 4 keys with list lengths 0-2. Oracle = reference written as comprehensions from the docstrings (Cartesian "
     "product of zipped groups, constants setdefault, derivers in order, exclude last); compared as multisets and, "
@@ -272,14 +272,14 @@ def product_case(draw):
 
 @st.composite
 def sum_case(draw):
-    n_ops = draw(st.sampled_from([2, 2, 3]))
+    n_ops = draw(st.sampled_from([2, 3]))
     ops = []
     for i in range(n_ops):
         if _chance(draw, 1, 25):
             ops.append(draw(sweep_recipe([], tag=str(i), exact=True)))  # a sweep without items
         else:
             ops.append(draw(sweep_recipe("abc", tag=str(i), min_keys=1, max_keys=3)))
-    return {"ops": ops, "mode": draw(st.sampled_from(["add", "multisweep", "combine", "nested"]))}
+    return {"ops": ops, "mode": draw(st.sampled_from(["add", "multisweep", "combine", "nested", "merge"]))}
 
 
 @st.composite
@@ -589,6 +589,8 @@ def body_sum(data) -> Outcome:
             ms = sweeps[0]
             for s in sweeps[1:]:
                 ms = ms.combine(s)
+        elif mode == "merge":  # MultiSweep + MultiSweep -> the right operand's members are appended
+            ms = MultiSweep(*sweeps[:1]) + MultiSweep(*sweeps[1:])
         else:  # nested: a + (b + c)
             tail = sweeps[-1]
             for s in reversed(sweeps[1:-1]):
